@@ -480,6 +480,19 @@ def run_C11(ctx):
     n = ctx.scale(500, 5000)
     cases = corpus("C11") + gen_cases(ctx, n, 5, ctx.scale(60, 250), big_cache=False, p_reject=0.08,
                                       finals=["F 1", "I", "G", "Z", "W", "K"])
+    # half of the histories go through one or two clean restarts under the SAME limits: the
+    # journal must go on exactly as if there had been none (a re-opened chunk is closed at its limit too)
+    rr = ctx.rnd
+    for k, c in enumerate(cases):
+        if rr.random() < 0.5:
+            head, ops = c.split("|", 1)
+            cfg = head.split(None, 1)[1].strip()
+            ol = [o.strip() for o in ops.split(";") if o.strip()]
+            idle = [i for i, o in enumerate(ol[:-6]) if o == "I"]
+            for pos in sorted(rr.sample(idle, min(len(idle), rr.randint(1, 2))), reverse=True):
+                ol[pos + 1:pos + 1] = ["F 1", "I", "X " + cfg]
+            cases[k] = head + "| " + " ; ".join(ol)
+            ctx.count("restarts_same_limits")
     impl, model = seq_run(ctx, cases)
     bad = 0
     for c, a in zip(cases, impl):
